@@ -35,6 +35,11 @@ def check(ctx):
     r09_2(ctx, m)
     r09_3(ctx, m)
     c08.check_provenance(ctx)  # bo:i is the BO of the anchor node: same rule as the sort key
+    # sn:Z is the SN tag value as the graph loader stored it: the loader's TAG:TYPE:VALUE split is shared with C07
+    from . import gfa_common as gc
+    from . import c07
+
+    c07.r07_4(ctx, gc.build(ctx, "R07.4"))
     ctx.not_decided.append("byte equality of the re-read line under BGZF (pysam's seek/readline contract)")
     ctx.assumptions.append("tell()/seek()/readline() of text files and pysam BGZFile are consistent with each other")
 
